@@ -113,6 +113,20 @@ def search(ctx, boost=1, focus=()):
         sep = outer + pat["radius"] + 4
         shape = [max(shape[0], 2 * int(np.ceil(sep)) + 3 + k % 2), max(shape[1], 2 * int(np.ceil(sep)) + 4)]
         pts = place_disks(rng, shape, int(rng.integers(1, 13)), sep, int(np.ceil(sep)))
+        if (k // 4) % 3 == 2:
+            # a large disk in a small frame (radius above a quarter of the frame side: the search box of the pattern is
+            # larger than the frame on one or both axes); the disk lies completely inside the frame
+            r = float(np.round(rng.uniform(9, 14), 1)) if k % 2 else float(rng.integers(10, 15))
+            pat = dict(pat, radius=r, search=float(np.round(r * rng.uniform(1.8, 2.6), 2)))
+            if "radius_outer" in pat:
+                pat["radius_outer"] = float(np.round(r * rng.uniform(1.2, 1.6), 2))
+                pat["search"] = max(pat["search"], pat["radius_outer"] + 1)
+            ext = int(np.ceil(pat.get("radius_outer", r))) + 2
+            shape = [int(rng.integers(2 * ext + 3, max(2 * ext + 4, int(4 * r)) + 1)), int(rng.integers(2 * ext + 3, 131))]
+            if k % 4 < 2:
+                shape = shape[::-1]
+            pts = np.array([[int(rng.integers(ext, shape[0] - ext)), int(rng.integers(ext, shape[1] - ext))]])
+            ctx.count("large_disk")
         if len(pts) == 0:
             continue
         amps = np.sort(rng.uniform(1, 2, len(pts)))[::-1] * np.cumprod(np.full(len(pts), 1 / 1.15))
